@@ -104,3 +104,76 @@ Example arglikes_nonvacuous :
   kw_pos l 0 = Some 1 /\ mapped l 0 = 2 /\ guard_refuses l 0 = true /\
   kw_pos l 1 = Some 3 /\ mapped l 1 = 3 /\ guard_refuses l 1 = false /\ guard_refuses l 2 = false.
 Proof. repeat split; reflexivity. Qed.
+
+(* ---- the args field ---- *)
+Lemma lead_a_le l : lead_a l <= count_a l.
+Proof. induction l as [|t l IH]; [unfold count_a; cbn; lia|]. rewrite count_a_cons. destruct t; cbn [lead_a is_a]; lia. Qed.
+
+(* in front of the first keyword the argument index IS the merged index; behind it the merged index is larger than lead_a *)
+Lemma arg_pos_spec : forall l i, i < count_a l ->
+  exists p, arg_pos l i = Some p /\ (i < lead_a l -> p = i) /\ (lead_a l <= i -> lead_a l < p).
+Proof.
+  induction l as [|t l IH]; intros i Hi.
+  - unfold count_a in Hi. cbn in Hi. lia.
+  - rewrite count_a_cons in Hi. destruct t; cbn [is_a] in Hi; cbn [arg_pos lead_a].
+    + destruct i as [|j].
+      * exists 0. repeat split; lia.
+      * destruct (IH j ltac:(lia)) as (p & E & P1 & P2). rewrite E. exists (S p). cbn [option_map]. split; [reflexivity|]. split; intros H.
+        -- specialize (P1 ltac:(lia)). lia.
+        -- specialize (P2 ltac:(lia)). lia.
+    + assert (Hc : i < count_a l) by lia. clear Hi.
+      (* behind a keyword every argument position is at least 1 > 0 = lead_a *)
+      assert (G : forall l i, i < count_a l -> exists p, arg_pos l i = Some p).
+      { clear. induction l as [|t l IH]; intros i Hi; [unfold count_a in Hi; cbn in Hi; lia|].
+        rewrite count_a_cons in Hi. destruct t; cbn [is_a] in Hi; cbn [arg_pos].
+        - destruct i as [|j]; [eexists; reflexivity|]. destruct (IH j ltac:(lia)) as (p & E). rewrite E. eexists; reflexivity.
+        - destruct (IH i ltac:(lia)) as (p & E). rewrite E. eexists; reflexivity. }
+      destruct (G l i Hc) as (p & E). rewrite E. exists (S p). cbn [option_map]. repeat split; intros; lia.
+Qed.
+
+Lemma behind_iff l i : i < count_a l -> (behind_first_kw l i = true <-> lead_a l <= i).
+Proof.
+  intros Hi. unfold behind_first_kw. destruct (arg_pos_spec l i Hi) as (p & E & P1 & P2). rewrite E.
+  rewrite Nat.ltb_lt. split; intros H.
+  - destruct (Nat.le_gt_cases (lead_a l) i) as [|G]; [assumption|]. specialize (P1 G). lia.
+  - exact (P2 H).
+Qed.
+
+(* the guard lets an edit of args[start:stop] through  <->  everything it touches lies in front of the first keyword:
+   all of args[:stop], and for a pure insertion in front of an existing argument that argument too *)
+Theorem args_guard_passes_iff_in_front_of_keywords l start stop has_code :
+  start <= stop <= count_a l -> 0 < count_k l ->
+  (args_guard_refuses l start stop has_code = false <->
+   stop <= lead_a l /\ (has_code = true -> start = stop -> stop < count_a l -> stop < lead_a l)).
+Proof.
+  intros Hs Hk. unfold args_guard_refuses. destruct (Nat.ltb_spec 0 (count_k l)) as [_|]; [|lia]. cbn [andb].
+  rewrite orb_false_iff. split.
+  - intros [G1 G2]. split.
+    + destruct stop as [|s]; [lia|]. cbn [Nat.ltb Nat.leb andb] in G1. replace (S s - 1) with s in G1 by lia.
+      destruct (Nat.le_gt_cases (lead_a l) s) as [L|L]; [|lia].
+      apply (behind_iff l s ltac:(lia)) in L. congruence.
+    + intros Hc He Hl. subst has_code. cbn [andb] in G2. apply Nat.eqb_eq in He. rewrite He in G2. apply Nat.ltb_lt in Hl. rewrite Hl in G2. cbn [andb] in G2.
+      apply Nat.ltb_lt in Hl. destruct (Nat.le_gt_cases (lead_a l) stop) as [L|L]; [|lia].
+      apply (behind_iff l stop Hl) in L. congruence.
+  - intros [H1 H2]. split.
+    + destruct stop as [|s]; [reflexivity|]. cbn [Nat.ltb Nat.leb andb]. replace (S s - 1) with s by lia.
+      destruct (behind_first_kw l s) eqn:B; [|reflexivity]. apply (behind_iff l s ltac:(lia)) in B. lia.
+    + destruct has_code; [|reflexivity]. cbn [andb]. destruct (Nat.eqb_spec start stop) as [E|]; [|reflexivity]. cbn [andb].
+      destruct (Nat.ltb_spec stop (count_a l)) as [L|]; [|reflexivity]. cbn [andb].
+      destruct (behind_first_kw l stop) eqn:B; [|reflexivity]. apply (behind_iff l stop L) in B. specialize (H2 eq_refl E L). lia.
+Qed.
+
+(* ... and then the argument indices of the slice are its merged indices: the edit of `args` is the same edit of the merged list *)
+Theorem args_in_front_are_merged_prefix l i : i < lead_a l -> arg_pos l i = Some i /\ nth_error l i = Some A.
+Proof.
+  intros Hi. pose proof (lead_a_le l). destruct (arg_pos_spec l i ltac:(lia)) as (p & E & P1 & _). specialize (P1 Hi). subst p. split; [exact E|].
+  revert i Hi E. clear. induction l as [|t l IH]; intros i Hi E; [cbn in Hi; lia|].
+  destruct t; cbn [lead_a] in Hi; [|lia]. destruct i as [|j]; [reflexivity|]. cbn [nth_error]. cbn [arg_pos] in E.
+  destruct (arg_pos l j) as [q|] eqn:Q; cbn in E; [|discriminate]. inversion E; subst q. apply IH; [lia|exact Q].
+Qed.
+
+Example args_guard_nonvacuous :
+  let l := [A; K; A] in                          (* f(a, k=1, *b) *)
+  lead_a l = 1 /\ args_guard_refuses l 0 0 true = false /\ args_guard_refuses l 0 1 true = false /\ args_guard_refuses l 1 1 true = true /\
+  args_guard_refuses l 1 2 false = true /\ args_guard_refuses l 2 2 true = true /\ args_guard_refuses [A; A] 1 2 true = false.
+Proof. repeat split; reflexivity. Qed.
